@@ -432,3 +432,225 @@ fn host_value_sweep() {
         }
     }
 }
+
+// ---- alpn.choice (unit alpn) ----
+/// one cell of the table: dial with `HttpConnectionBuilder` over a transport that reports `tls` (None = no TLS at
+/// all, Some(alpn) = TLS with that ALPN result), asking for `proto`; returns what the connection says it speaks and
+/// the first line the peer actually receives when a request is sent on it
+async fn alpn_cell(
+    proto: crate::client::conn::protocol::HttpProtocol,
+    tls: Option<Option<crate::info::Protocol>>,
+) -> (http::Version, bool, String) {
+    use crate::client::conn::protocol::auto::HttpConnectionBuilder;
+    use crate::client::conn::stream::mock::MockTls;
+    use crate::client::conn::Protocol as _;
+    use crate::client::pool::PoolableConnection as _;
+    use tokio::io::{AsyncBufReadExt, BufReader};
+
+    let (stream, rx) = duplex().await;
+    let mut builder = HttpConnectionBuilder::<crate::Body>::default();
+    let conn = match tls {
+        None => builder.connect(stream, proto).await,
+        Some(alpn) => {
+            let info = crate::info::TlsConnectionInfo::new_client(alpn);
+            builder.connect(MockTls::new(stream, info), proto).await
+        }
+    };
+    let mut conn = conn.expect("the handshake over an in-memory pipe succeeds");
+    let version = conn.version();
+    let share = conn.can_share();
+    let request = http::Request::builder()
+        .version(http::Version::HTTP_11)
+        .method(http::Method::GET)
+        .uri("/x")
+        .header("host", "localhost")
+        .body(crate::body::Body::empty())
+        .unwrap();
+    let fut = conn.send_request(request);
+    let server = async move {
+        let mut buf = String::new();
+        let _ = BufReader::new(rx).read_line(&mut buf).await;
+        buf
+    };
+    let line = tokio::time::timeout(std::time::Duration::from_secs(5), async {
+        tokio::select! {
+            line = server => line,
+            _ = async { let _ = fut.await; std::future::pending::<()>().await } => unreachable!(),
+        }
+    })
+    .await
+    .expect("the peer receives the start of the conversation");
+    (version, share, line)
+}
+
+/// alpn.choice [C13]: a connection speaks HTTP/2 exactly when the request asked for HTTP/2 or TLS negotiated h2 via
+/// ALPN, and HTTP/1.1 otherwise - the whole table requested protocol x ALPN result
+#[tokio::test]
+async fn alpn_choice_table() {
+    use crate::client::conn::protocol::HttpProtocol;
+    use crate::info::Protocol as Alpn;
+    let alpns: Vec<(&str, Option<Option<Alpn>>)> = vec![
+        ("no TLS", None),
+        ("TLS, no ALPN", Some(None)),
+        ("ALPN http/1.0", Some(Some(Alpn::http(http::Version::HTTP_10)))),
+        ("ALPN http/1.1", Some(Some(Alpn::http(http::Version::HTTP_11)))),
+        ("ALPN h2", Some(Some(Alpn::http(http::Version::HTTP_2)))),
+        ("ALPN other", Some(Some(Alpn::Other("acme-tls/1".into())))),
+    ];
+    let mut wrong = Vec::new();
+    for proto in [HttpProtocol::Http1, HttpProtocol::Http2] {
+        for (name, tls) in &alpns {
+            let alpn_h2 = matches!(tls, Some(Some(Alpn::Http(http::Version::HTTP_2))));
+            let want_h2 = proto == HttpProtocol::Http2 || alpn_h2;
+            let (version, share, line) = alpn_cell(proto, tls.clone()).await;
+            println!("requested {proto:?} / {name:14} -> connection {version:?}, shareable {share}, wire {line:?}");
+            let (want_version, want_line) = if want_h2 {
+                (http::Version::HTTP_2, "PRI * HTTP/2.0\r\n")
+            } else {
+                (http::Version::HTTP_11, "GET /x HTTP/1.1\r\n")
+            };
+            if version != want_version || share != want_h2 || line != want_line {
+                wrong.push(format!("requested {proto:?}, {name}: connection {version:?} (shareable {share}), peer received {line:?}; expected {want_version:?}"));
+            }
+        }
+    }
+    assert!(wrong.is_empty(), "protocol choice differs from `requested HTTP/2 or ALPN h2`:\n{}", wrong.join("\n"));
+}
+
+// ---- A.builder.h2_checks: the request rules of an HTTP/2 connection, seen by a real HTTP/2 peer ----
+type SeenRequests = std::sync::Arc<std::sync::Mutex<Vec<(http::Method, http::Version, http::HeaderMap)>>>;
+
+/// hyper's HTTP/2 server on every connection of `incoming`; records what it receives, answers 200
+fn h2_recording_server(incoming: crate::stream::duplex::DuplexIncoming, seen: SeenRequests) -> tokio::task::JoinHandle<()> {
+    use futures_util::stream::StreamExt as _;
+    tokio::spawn(async move {
+        let mut incoming = incoming;
+        while let Some(Ok(stream)) = incoming.next().await {
+            let seen = seen.clone();
+            tokio::spawn(async move {
+                let service = hyper::service::service_fn(move |req: http::Request<hyper::body::Incoming>| {
+                    seen.lock().unwrap().push((req.method().clone(), req.version(), req.headers().clone()));
+                    async move { Ok::<_, std::convert::Infallible>(http::Response::new(crate::Body::empty())) }
+                });
+                let _ = hyper::server::conn::http2::Builder::new(crate::bridge::rt::TokioExecutor::new())
+                    .serve_connection(crate::bridge::io::TokioIo::new(stream), service)
+                    .await;
+            });
+        }
+    })
+}
+
+/// A.builder.h2_checks [C13] (bounded stand-in for `Builder::build_service`: the layer stack is assembled from
+/// generic tower combinators, outside the verifier's reach): however the client was built - with or without a TLS
+/// configuration, with or without a pool - a prior-knowledge HTTP/2 request reaches a real HTTP/2 peer without a Host
+/// header and without connection-specific headers, and CONNECT is rejected with an error before anything is sent.
+#[tokio::test]
+async fn standin_builder_h2_checks() {
+    use crate::client::conn::protocol::auto::HttpConnectionBuilder;
+    use crate::client::conn::transport::duplex::DuplexTransport;
+    use crate::client::{Builder, Client};
+
+    crate::fixtures::tls_install_default();
+    const T: std::time::Duration = std::time::Duration::from_secs(10);
+    const FORBIDDEN: [&str; 6] = ["host", "connection", "proxy-connection", "keep-alive", "transfer-encoding", "upgrade"];
+
+    let builds: Vec<(&str, Box<dyn Fn(DuplexTransport) -> Client>)> = vec![
+        ("Client::builder(), no TLS", Box::new(|t| {
+            Client::builder().with_protocol(HttpConnectionBuilder::default()).with_transport(t).with_default_pool().build()
+        })),
+        ("Client::builder(), no TLS, no pool", Box::new(|t| {
+            Client::builder().with_auto_http().with_transport(t).without_pool().build()
+        })),
+        ("Builder::default().without_tls()", Box::new(|t| Builder::default().without_tls().with_transport(t).build())),
+        ("with_tls(config) then without_tls()", Box::new(|t| {
+            Client::builder().with_tls(crate::fixtures::tls_client_config()).with_auto_http().with_transport(t).without_tls().with_default_pool().build()
+        })),
+        ("with_tls(config)", Box::new(|t| {
+            Client::builder().with_auto_http().with_transport(t).with_tls(crate::fixtures::tls_client_config()).with_default_pool().build()
+        })),
+        ("with_tls(config), no pool", Box::new(|t| {
+            Client::builder().with_tls(crate::fixtures::tls_client_config()).with_auto_http().with_transport(t).build()
+        })),
+        ("with_default_tls()", Box::new(|t| {
+            Client::builder().with_auto_http().with_transport(t).with_default_tls().with_default_pool().build()
+        })),
+        ("Builder::default() (TLS on)", Box::new(|t| Builder::default().with_transport(t).build())),
+    ];
+
+    let mut wrong = Vec::new();
+    for (name, build) in &builds {
+        let (tx, incoming) = crate::stream::duplex::pair();
+        let seen: SeenRequests = Default::default();
+        let server = h2_recording_server(incoming, seen.clone());
+        let mut client = build(DuplexTransport::new(16 * 1024, tx));
+
+        for method in [http::Method::GET, http::Method::POST] {
+            let mut req = http::Request::builder()
+                .method(method.clone())
+                .uri("http://test.example/x?y=1")
+                .version(http::Version::HTTP_2)
+                .body(if method == http::Method::POST { crate::Body::from("hello") } else { crate::Body::empty() })
+                .unwrap();
+            for (k, v) in [
+                ("host", "caller.example"),
+                ("connection", "keep-alive, x-hop"),
+                ("proxy-connection", "keep-alive"),
+                ("keep-alive", "timeout=5"),
+                ("upgrade", "websocket"),
+                ("accept", "*/*"),
+                ("x-custom", "1"),
+            ] {
+                req.headers_mut().append(k, v.parse().unwrap());
+            }
+            let before = seen.lock().unwrap().len();
+            match tokio::time::timeout(T, client.request(req)).await {
+                Err(_) => wrong.push(format!("[{name}] {method}: no response within {T:?}")),
+                Ok(Err(e)) => wrong.push(format!("[{name}] {method}: request failed: {e}")),
+                Ok(Ok(resp)) => {
+                    if resp.status() != http::StatusCode::OK || resp.version() != http::Version::HTTP_2 {
+                        wrong.push(format!("[{name}] {method}: response {} {:?}", resp.status(), resp.version()));
+                    }
+                }
+            }
+            let log = seen.lock().unwrap();
+            if log.len() != before + 1 {
+                wrong.push(format!("[{name}] {method}: the HTTP/2 peer received {} requests instead of 1", log.len() - before));
+            }
+            for (m, v, headers) in log.iter().skip(before) {
+                if *v != http::Version::HTTP_2 || m != method {
+                    wrong.push(format!("[{name}] {method}: the peer received {m} {v:?}"));
+                }
+                for k in FORBIDDEN {
+                    if let Some(value) = headers.get(k) {
+                        wrong.push(format!("[{name}] {method}: header `{k}: {}` reached the HTTP/2 peer", value.to_str().unwrap_or("?")));
+                    }
+                }
+                if headers.get("accept").map(|v| v.as_bytes()) != Some(b"*/*") || headers.get("x-custom").map(|v| v.as_bytes()) != Some(b"1") {
+                    wrong.push(format!("[{name}] {method}: an ordinary header was lost on the way: {headers:?}"));
+                }
+            }
+        }
+
+        // CONNECT: rejected by the client, never put on the HTTP/2 connection
+        let req = http::Request::builder()
+            .method(http::Method::CONNECT)
+            .uri("http://test.example:443/")
+            .version(http::Version::HTTP_2)
+            .body(crate::Body::empty())
+            .unwrap();
+        let before = seen.lock().unwrap().len();
+        match tokio::time::timeout(T, client.request(req)).await {
+            Err(_) => wrong.push(format!("[{name}] CONNECT: neither rejected nor answered within {T:?}")),
+            Ok(Ok(resp)) => wrong.push(format!("[{name}] CONNECT on an HTTP/2 connection was not rejected: response {}", resp.status())),
+            Ok(Err(Error::InvalidMethod(m))) if m == http::Method::CONNECT => {}
+            Ok(Err(e)) => wrong.push(format!("[{name}] CONNECT failed, but not because the method was rejected: {e:?}")),
+        }
+        if seen.lock().unwrap().len() != before {
+            wrong.push(format!("[{name}] CONNECT was sent to the HTTP/2 peer"));
+        }
+        println!("[{name}] peer received {} requests", seen.lock().unwrap().len());
+        drop(client);
+        server.abort();
+    }
+    assert!(wrong.is_empty(), "HTTP/2 request rules not applied:\n{}", wrong.join("\n"));
+}
